@@ -199,6 +199,13 @@ def emit(p, fname, naming=0):
     if t == "dectree":
         cond = lambda c: "%s > 0" % b if c == "b>0" else "%s > %s" % (a, b)
         L = [expr(p[k], N, pres) for k in ("l1", "l2", "l3", "l4")]
+        pre = ""
+        if p.get("pre") == "yes":      # the inner conditions are evaluated BEFORE the outer test: the arms hold nothing but a branch
+            c2n, c3n = N["x"], N["y"]
+            pre = "\t%s, %s := %s, %s\n" % (c2n, c3n, cond(p["c2"]), cond(p["c3"]))
+            cond = lambda c, _c2=p["c2"], _a=c2n, _b=c3n: _a if c == "c2" else _b
+            sig = sig + pre
+            p = dict(p, c2="c2", c3="c3")
         if p.get("form") == "glob":
             return sig + ("\tif %s > 0 {\n\t\tif %s {\n\t\t\tsink = %s\n\t\t} else {\n\t\t\tsink = %s\n\t\t}\n\t} else {\n"
                           "\t\tif %s {\n\t\t\tsink = %s\n\t\t} else {\n\t\t\tsink = %s\n\t\t}\n\t}\n\treturn sink\n}\n") % (
